@@ -496,7 +496,7 @@ impl Shard {
                 self.rep.set_add("foreign_signatures", sig.clone());
             }
             // after any hit on a memory-safety oracle the process state cannot be trusted any more
-            if out.viols.iter().any(|v| matches!(v.prop, "C01" | "C03" | "C20") || matches!(v.oracle, "drop_of_uninit" | "drop_of_garbage") || v.oracle.contains("dead") || v.oracle.contains("damaged") || v.oracle.contains("panic")) {
+            if out.viols.iter().any(|v| (matches!(v.prop, "C01" | "C03" | "C20") && !matches!(v.oracle, "box_not_released" | "leak_at_end" | "zero_size_alloc")) || matches!(v.oracle, "drop_of_uninit" | "drop_of_garbage") || v.oracle.contains("dead") || v.oracle.contains("damaged") || v.oracle.contains("panic")) {
                 self.stop = true;
             }
         }
